@@ -245,33 +245,34 @@ pub trait Compound: Sized + Send + Sync + 'static {
     }
 }
 
+/// What was recorded while loading an asset: its dependencies, if the cache
+/// has a reloader that wants to know about them.
+#[cfg(feature = "hot-reloading")]
+pub(crate) type Recorded = Option<crate::hot_reloading::Dependencies>;
+#[cfg(not(feature = "hot-reloading"))]
+pub(crate) type Recorded = ();
+
+/// Loads an asset, recording its dependencies.
+///
+/// Nothing is registered for hot-reloading here: the caller knows whether the
+/// value ends up in the cache, and only a value that is actually stored can be
+/// reloaded.
 #[inline]
 pub(crate) fn load_and_record(
     cache: AnyCache,
     id: SharedString,
     typ: Type,
-    _cached: bool,
-) -> Result<CacheEntry, Error> {
+) -> (Result<CacheEntry, Error>, Recorded) {
     #[cfg(feature = "hot-reloading")]
     if typ.is_hot_reloaded() {
         if let Some(reloader) = cache.reloader() {
-            let (entry, deps) = crate::hot_reloading::records::record(reloader, || {
-                (typ.inner.load)(cache, id.clone())
-            });
-            if entry.is_ok() {
-                if _cached {
-                    reloader.add_asset(id, deps, typ);
-                } else {
-                    // The value is not stored in the cache, so there is
-                    // nothing to reload
-                    reloader.add_owned_asset(id, deps, typ);
-                }
-            }
-            return entry;
+            let (entry, deps) =
+                crate::hot_reloading::records::record(reloader, || (typ.inner.load)(cache, id));
+            return (entry, Some(deps));
         }
     }
 
-    (typ.inner.load)(cache, id)
+    ((typ.inner.load)(cache, id), Default::default())
 }
 
 impl<T> Compound for T
